@@ -48,11 +48,13 @@ Proof. exact reachable_facts. Qed.
 Print Assumptions C18_reachable_facts.
 
 (* one step of DHCP's model: every lease after it continues a lease before it (Allocated only if it was, with the
-   same client id, MAC, address, subnet) or is made by the step's message (Allocated only if the reply is an ACK) *)
+   same client id, MAC, address, subnet AND EXPIRY) or is made by the step's message (Allocated only if the reply is
+   an ACK); the verif hook OSetExp (not library code) keeps everything but an expiry *)
 Theorem C18_step_shaped : forall c ch s o s' rp,
   D.step c ch s o = (s', rp) ->
   forall l, In l (D.tbl s') ->
-    kept (D.tbl s) l \/ (DC.op_msg o <> None /\ made (op_cid o) (is_ack_reply rp) l).
+    kept (D.tbl s) l \/ (DC.op_msg o <> None /\ made (op_cid o) (is_ack_reply rp) l)
+    \/ (hook_op o /\ kept_upto_exp (D.tbl s) l).
 Proof. exact step_shaped. Qed.
 Print Assumptions C18_step_shaped.
 
@@ -71,10 +73,14 @@ Print Assumptions C18_glue_nonvacuous.
    lease does not survive as a non-free lease with the same client id, MAC, address and subnet.  That this is what
    the code does is checked by the harness, which compares the real file with the real table after EVERY step. *)
 
-(* FULL (repaired code): after every history, every acknowledged binding of the table is in the file, and every
+(* FULL (repaired code; histories of library ops, i.e. without the verif hook that rewrites an expiry in memory):
+   after every history, every acknowledged lease of the table is in the file WITH ITS CURRENT EXPIRY (same_binding
+   covers client id, MAC, address, subnet and expiry: every ACK — renewals, rebinding, reboot, duplicate SELECT
+   included — saves), and every
    Allocated record of the file is a lease the table still holds — Allocated, or in state discover with the same
    binding (a client re-negotiating a lease it still holds; the file rightly keeps it). *)
 Theorem C18_file_current : forall c h,
+  lib_hist h ->
   let r := run_file saves_repaired c (D.init c) [] h in
   covers (snd r) (D.tbl (fst r)) /\ current_mod (snd r) (D.tbl (fst r)).
 Proof. exact file_current_repaired. Qed.
@@ -92,6 +98,7 @@ Print Assumptions C18_file_current_any_policy.
 (* Before 9517ed8 the policy was "after an ACK only" ([saves_on_ack]).  Under it: nothing acknowledged is ever
    missing from the file (full) ... *)
 Theorem C18_file_covers_ack_only : forall c h,
+  lib_hist h ->
   let r := run_file saves_on_ack c (D.init c) [] h in covers (snd r) (D.tbl (fst r)).
 Proof. exact file_covers. Qed.
 Print Assumptions C18_file_covers_ack_only.
